@@ -61,8 +61,11 @@ func xTarNext(tr *tar.Reader) (*tar.Header, error) {
 	e := xEntries[xPos]
 	xPos++
 	tf := e.typeflag
-	if tf == tar.TypeReg && strings.HasSuffix(e.name, "/") {
-		tf = tar.TypeDir // what the real reader does
+	if tf == tar.TypeRegA { // what the real reader does with the legacy regular-file flag
+		tf = tar.TypeReg
+		if strings.HasSuffix(e.name, "/") {
+			tf = tar.TypeDir
+		}
 	}
 	return &tar.Header{Name: e.name, Typeflag: tf, Linkname: "/etc/passwd", Mode: 0o644}, nil
 }
@@ -137,7 +140,7 @@ func xRawTarHeader(name string, typeflag byte) []byte {
 	return b
 }
 
-var xTypeMenu = []byte{tar.TypeReg, tar.TypeDir, tar.TypeSymlink, tar.TypeLink, tar.TypeChar, tar.TypeFifo}
+var xTypeMenu = []byte{tar.TypeReg, tar.TypeDir, tar.TypeSymlink, tar.TypeLink, tar.TypeChar, tar.TypeFifo, tar.TypeRegA}
 
 func H16Extract() {
 	n := ndIntRange("entries", 1, vBound("xentries", 2))
@@ -203,7 +206,7 @@ func H16Extract() {
 	// an archive containing a link or device entry is refused as a whole or at that entry
 	bad := false
 	for _, e := range es {
-		if e.typeflag != tar.TypeReg && e.typeflag != tar.TypeDir {
+		if e.typeflag != tar.TypeReg && e.typeflag != tar.TypeDir && e.typeflag != tar.TypeRegA {
 			bad = true
 		}
 	}
